@@ -28,6 +28,8 @@ Constants PROVED (all not larger than the constants the checks use):
   with Pr, Pc   (`solve_error_perm_check_constant`)    γ_{4n+4}
   expert driver (`expert_equilibrated_check_constant`) γ_{4n+6}|L̂||Û||x_eq| + γ_{n+1}|b1|   (proved: γ_{3n+3}, no |b1| term)
                 (`expert_original_check_constant`)     γ_{4n+10}|L̂||Û||x_eq| + γ_{n+3}|b1|  (proved: γ_{3n+5}, γ_1|b1|)
+  kernels (C14) (`trsv_lower_check_constant`, `trsv_upper_check_constant`)  γ_{2n+8}(|T||x̂| + |b|)  (proved: γ_{n+1}|T||x̂|)
+                (`gstrs_check_constant`)               γ_{4n+4}|P||Q||x̂| + γ_{n+1}|b|      (proved: γ_{2n+2})
 Also: sparse kernels that skip structural zeros are covered (`Dot.of_filter`); operations done
 more accurately than `u` are covered (`Dot.mono`, `LUComputed.mono`); with `u = 0` the bounds
 collapse to the exact identities of C01 / C02 (`LUComputed.exact_identity`, `lu_solve_exact`).
@@ -147,6 +149,42 @@ theorem solve_error_perm_check_constant {u : F} (hu0 : 0 ≤ u) {n : Nat} {A L U
     |b (pr i) - ∑ c ∈ range n, A (pr i) c * x c| ≤
       gamma u (4 * n + 4) * ∑ j ∈ range n, (∑ t ∈ range n, |L i t| * |U t j|) * |x (pc j)| :=
   lu_solve_backward_error_perm hu0 hpc hinj hLU hy hx (by omega) hu i hi
+
+/-! ### the kernels checked on their own (C14, real types) -/
+
+/-- **`sp_[sd]trsv`, lower** (unit or not): `|b - T x̂| ≤ γ_{2n+8} (|T||x̂| + |b|)` (proved: `γ_{n+1}`,
+no `|b|` term). -/
+theorem trsv_lower_check_constant {u : F} (hu0 : 0 ≤ u) {n : Nat} {T : Nat → Nat → F} {b x : Nat → F}
+    (hT : ∀ i t, i < t → T i t = 0) (h : LowerSolved u n 2 T b x)
+    (hu : ((2 * n + 8 : Nat) : F) * u < 1) (i : Nat) (hi : i < n) :
+    |b i - ∑ t ∈ range n, T i t * x t| ≤ gamma u (2 * n + 8) * (∑ t ∈ range n, |T i t| * |x t| + |b i|) := by
+  have h1 := lower_solve_bound hu0 hT h (K := 2 * n + 8) (by omega) hu i hi
+  have h2 : 0 ≤ gamma u (2 * n + 8) * |b i| := mul_nonneg (gamma_nonneg hu0 hu) (abs_nonneg _)
+  rw [mul_add]; linarith
+
+/-- **`sp_[sd]trsv`, upper**: the same bound. -/
+theorem trsv_upper_check_constant {u : F} (hu0 : 0 ≤ u) {n : Nat} {T : Nat → Nat → F} {y x : Nat → F}
+    (hT : ∀ i t, t < i → T i t = 0) (h : UpperSolved u n 2 T y x)
+    (hu : ((2 * n + 8 : Nat) : F) * u < 1) (i : Nat) (hi : i < n) :
+    |y i - ∑ t ∈ range n, T i t * x t| ≤ gamma u (2 * n + 8) * (∑ t ∈ range n, |T i t| * |x t| + |y i|) := by
+  have h1 := upper_solve_bound hu0 hT h (K := 2 * n + 8) (by omega) hu i hi
+  have h2 : 0 ≤ gamma u (2 * n + 8) * |y i| := mul_nonneg (gamma_nonneg hu0 hu) (abs_nonneg _)
+  rw [mul_add]; linarith
+
+/-- **`[sd]gstrs` against `A := L̂Û`** (the product of the stored factors, formed exactly):
+`|b - (P Q) x̂| ≤ γ_{4n+4} |P||Q||x̂| + γ_{n+1} |b|` (proved: `γ_{2n+2}`), NOTRANS with `P = L̂, Q = Û`
+or TRANS with `P = Ûᵀ, Q = L̂ᵀ`. -/
+theorem gstrs_check_constant {u : F} (hu0 : 0 ≤ u) {n : Nat} {P Q : Nat → Nat → F} {b y x : Nat → F}
+    (hP : ∀ i t, i < t → P i t = 0) (hQ : ∀ i t, t < i → Q i t = 0)
+    (hy : LowerSolved u n 2 P b y) (hx : UpperSolved u n 2 Q y x)
+    (hu : ((4 * n + 4 : Nat) : F) * u < 1) (i : Nat) (hi : i < n) :
+    |b i - ∑ j ∈ range n, (∑ t ∈ range n, P i t * Q t j) * x j| ≤
+      gamma u (4 * n + 4) * ∑ j ∈ range n, (∑ t ∈ range n, |P i t| * |Q t j|) * |x j| +
+        gamma u (n + 1) * |b i| := by
+  have h1 := two_solves_bound hu0 hP hQ hy hx (K := 4 * n + 4) (by omega) hu i hi
+  have h2 : 0 ≤ gamma u (n + 1) * |b i| :=
+    mul_nonneg (gamma_nonneg hu0 (mul_lt_one_of_le hu0 (by omega) hu)) (abs_nonneg _)
+  linarith
 
 /-! ### the expert driver's scalings (C05) -/
 
